@@ -178,8 +178,12 @@ func runCancelXInner(c cancelX) string {
 	base := stableGoroutines()
 	gdelta := 0
 	var cleanup []func()
+	// the follow-up operations run under a context WITHOUT a deadline (a watchdog cancels it after 3 s): whatever
+	// deadline the given-up operation left on the transport must have been cleared, not merely replaced
 	live := func() (context.Context, context.CancelFunc) {
-		return context.WithTimeout(context.Background(), 3*time.Second)
+		ctx, cancel := context.WithCancel(context.Background())
+		t := time.AfterFunc(3*time.Second, cancel)
+		return ctx, func() { t.Stop(); cancel() }
 	}
 	switch c.api {
 	case "readbytes", "read", "write":
